@@ -432,11 +432,20 @@ class DAGRunConcurrentManager(DAGRunManagerLike):
         Get the node's predecessors
         """
 
-        predecessors = list(
-            self._get_node_dependencies(dag, node_id)
-            if self._is_switch(node_id) or self._is_head_of_oneof(node_id) or dag.is_recurrent
-            else self.dag.graph.predecessors(node_id),
-        )
+        if self._is_switch(node_id):
+            # A switch can be resolved as soon as the node that selects the case has a result. The cases themselves
+            # must not be awaited here: a case that is also a part of the current dag may be launched after the switch.
+            predecessors = [
+                pred_node_id
+                for pred_node_id in self._get_node_dependencies(dag, node_id)
+                if self.dag.graph.edges[pred_node_id, node_id].get(EdgeField.is_switch)
+            ]
+        else:
+            predecessors = list(
+                self._get_node_dependencies(dag, node_id)
+                if self._is_head_of_oneof(node_id) or dag.is_recurrent
+                else self.dag.graph.predecessors(node_id),
+            )
 
         for idx, node_id in enumerate(predecessors):
 
